@@ -144,7 +144,7 @@ def explore_core(ctx: Ctx, prop: CoreProp) -> Exploration:
                             stats["fuel_skipped"] += 1
             # correspondence
             if not meta.get("no_model"):
-                ds = diff_program(prog, a, b, prop.facets)
+                ds = diff_program(prog, a, b, meta.get("facets") or prop.facets)
                 if ds:
                     stats["disagreements"] += 1
                     d0 = ds[0]
@@ -152,12 +152,12 @@ def explore_core(ctx: Ctx, prop: CoreProp) -> Exploration:
                     def fails_corr(cand, _f=d0["facet"]):
                         ia = run_impl([cand], hashseed=hashseed)[0]
                         ib = run_model([cand])[0]
-                        return any(x["facet"] == _f for x in diff_program(cand, ia, ib, prop.facets))
+                        return any(x["facet"] == _f for x in diff_program(cand, ia, ib, meta.get("facets") or prop.facets))
 
                     small = shrink(prog, meta, fails_corr) if len(exp.findings) < 3 else prog
                     ia = run_impl([small], hashseed=hashseed)[0]
                     ib = run_model([small])[0]
-                    dd = diff_program(small, ia, ib, prop.facets)
+                    dd = diff_program(small, ia, ib, meta.get("facets") or prop.facets)
                     exp.findings.append(Finding(
                         "correspondence",
                         f"model and implementation disagree on facet '{d0['facet']}' (op {d0['op']})",
@@ -250,7 +250,7 @@ def replay_core(prop: CoreProp, payload: Dict[str, Any]) -> int:
     hs = payload.get("hashseed", "0")
     ia = run_impl([prog], hashseed=hs)[0]
     ib = run_model([prog])[0]
-    ds = diff_program(prog, ia, ib, prop.facets)
+    ds = diff_program(prog, ia, ib, meta.get("facets") or prop.facets)
     vs = prop.oracle(prog, meta, ia, ib) if isinstance(ia, list) else [("runner error", -1, ia)]
     print("implementation:", dumps(ia)[:3000])
     print("model         :", dumps(ib)[:3000])
